@@ -20,13 +20,15 @@ RULE = (
     "recordings == one-shot recordings (1e-10) and returned states == manual stepper state at the last returned time point; "
     "a state is (model, config, number of steps simulated so far, checkpoint variant); transitions are integrate calls"
 )
-REQUIRED_COVER = ["overlap_sample", "state_reads_current", "first_part_is_1", "last_part_is_1", "all_ones", "prod_gt_steps_with_return_states", "exact_factorisation",
+REQUIRED_COVER = ["non_default_delta_t", "overlap_sample", "state_reads_current", "first_part_is_1", "last_part_is_1", "all_ones", "prod_gt_steps_with_return_states", "exact_factorisation",
                   "manual_stepper", "clamp", "synapse_model", "fwd_euler"]
 ASSUMPTIONS = [
-    "tolerance 1e-10 relative (observed agreement is bit-for-bit on the unchanged tree)",
+    "tolerance 1e-8 relative: programs of different scan length / checkpoint layout are fused differently and round-off (1e-16) is amplified by up to 1e6 through an action-potential upstroke at dt = 0.05; a wrong state, input slice or time step is off by >= 1e-4",
     "runs are 4-5 steps long; longer runs are not explored",
 ]
-TOL = 1e-10
+TOL = 1e-8       # scans of different length are compiled differently; round-off is amplified through spikes (see TOL_CKPT)
+TOL_CKPT = 1e-8  # checkpointed scans are compiled differently (fusion / FMA): round-off differences of ~1e-16 are amplified by
+                 # up to 1e6 through an action-potential upstroke; a wrong state or time step is off by >= 1e-4
 
 CONFIGS = {
     "comp_hh": {"stim": lambda m: m, "clamp": ("HH_m", lambda m: m), "schemes": ["bwd_euler", "crank_nicolson", "fwd_euler"]},
@@ -82,16 +84,17 @@ def _inputs(m, model_name, lo, hi, n):
     return ds, dc
 
 
-def _integrate(m, model_name, lo, hi, n, scheme, backend, ck, all_states):
+def _integrate(m, model_name, lo, hi, n, scheme, backend, ck, all_states, dt=0.025):
     import jaxley as jx
 
     ds, dc = _inputs(m, model_name, lo, hi, n)
+    kw = {} if dt == 0.025 else {"delta_t": dt}  # the default time step is passed implicitly, any other explicitly
     recs, st = jx.integrate(m, data_stimuli=ds, data_clamps=dc, solver=scheme, voltage_solver=backend,
-                            checkpoint_lengths=ck, all_states=all_states, return_states=True)
+                            checkpoint_lengths=ck, all_states=all_states, return_states=True, **kw)
     return np.asarray(recs), st
 
 
-def _manual(m, model_name, n, scheme, backend):
+def _manual(m, model_name, n, scheme, backend, dt=0.025):
     """Manual stepping with init_fn/step_fn; returns recordings-equivalent voltages and the final state dict."""
     import jax.numpy as jnp
     from jaxley.integrate import build_init_and_step_fn
@@ -99,11 +102,11 @@ def _manual(m, model_name, n, scheme, backend):
     ds, dc = _inputs(m, model_name, 0, n, n)
     m.to_jax()
     init_fn, step_fn = build_init_and_step_fn(m, voltage_solver=backend, solver=scheme)
-    states, params = init_fn([], None, None, 0.025)
+    states, params = init_fn([], None, None, dt)
     inds = {"i": ds[2].index.to_numpy(), dc[0]: dc[2].index.to_numpy()}
     for k in range(n):
         ext = {"i": jnp.asarray(ds[1])[:, k], dc[0]: jnp.asarray(dc[1])[:, k]}
-        states = step_fn(states, params, ext, inds, 0.025)
+        states = step_fn(states, params, ext, inds, dt)
     return {k: np.asarray(v) for k, v in states.items()}
 
 
@@ -126,19 +129,20 @@ def _state_diff(a, b):
     return worst, key
 
 
-def run_config(model_name, scheme, backend, n, variants, comps=None):
+def run_config(model_name, scheme, backend, n, variants, comps=None, dt=0.025):
     out = {"violations": [], "cover": [], "refusals": [], "digests": [], "evals": 0, "transitions": 0}
     m = _setup(model_name)
-    base_wit = {"model": model_name, "scheme": scheme, "backend": backend, "n": n}
+    base_wit = {"model": model_name, "scheme": scheme, "backend": backend, "n": n, "dt": dt}
 
     def viol(rule, variant, comp, msg):
         out["violations"].append({
             "sig": {"rule": rule, "prod_gt_steps": variant == "over", "checkpointed": variant != "none", "model": model_name,
+                    "default_dt": dt == 0.025,
                     "scheme": scheme, "backend_family": "sparse" if backend == "jax.sparse" else "jaxley"},
             "witness": dict(base_wit, variant=variant, composition=list(comp)), "msg": msg})
 
     try:
-        one, st_one = _integrate(m, model_name, 0, n, n, scheme, backend, None, None)
+        one, st_one = _integrate(m, model_name, 0, n, n, scheme, backend, None, None, dt)
         out["transitions"] += 1
     except Exception as e:
         out["refusals"].append(f"{backend}:{scheme}:{model_name}:{type(e).__name__}")
@@ -146,7 +150,9 @@ def run_config(model_name, scheme, backend, n, variants, comps=None):
     if not np.all(np.isfinite(one)):
         viol("finite", "none", (n,), "one-shot run is not finite")
         return out
-    man = _manual(m, model_name, n, scheme, backend)
+    man = _manual(m, model_name, n, scheme, backend, dt)
+    if dt != 0.025:
+        out["cover"].append("non_default_delta_t")
     d, key = _state_diff({k: np.asarray(v) for k, v in st_one.items()}, man)
     out["cover"].append("manual_stepper")
     if d > TOL:
@@ -165,7 +171,7 @@ def run_config(model_name, scheme, backend, n, variants, comps=None):
             pieces, pieces_full, st, lo, ok = [], [], None, 0, True
             for j, k in enumerate(comp):
                 try:
-                    rec, st = _integrate(m, model_name, lo, lo + k, n, scheme, backend, _ckpt(k, variant), st)
+                    rec, st = _integrate(m, model_name, lo, lo + k, n, scheme, backend, _ckpt(k, variant), st, dt)
                 except Exception as e:
                     viol("segment_raised", variant, comp, f"{type(e).__name__}: {str(e)[:200]}")
                     ok = False
@@ -176,7 +182,7 @@ def run_config(model_name, scheme, backend, n, variants, comps=None):
                     prev_last = pieces_full[-1][:, -1]
                     d0 = float(np.max(np.abs(rec[:, 0] - prev_last) / (1 + np.abs(prev_last))))
                     out["cover"].append("overlap_sample")
-                    if not np.isfinite(d0) or d0 > TOL:
+                    if not np.isfinite(d0) or d0 > (TOL if variant == "none" else TOL_CKPT):
                         bad = int(np.argmax(np.abs(rec[:, 0] - prev_last)))
                         viol("overlap_sample", variant, comp,
                              f"segment {j}: column 0 differs from the previous segment's last column by {d0} (row {bad}: "
@@ -188,7 +194,7 @@ def run_config(model_name, scheme, backend, n, variants, comps=None):
                 if variant != "none":
                     want_v = one[: len(m.nodes), lo] if True else None
                     got_v = np.asarray(st["v"])
-                    if float(np.max(np.abs(got_v - want_v))) > TOL * (1 + float(np.max(np.abs(want_v)))):
+                    if float(np.max(np.abs(got_v - want_v))) > TOL_CKPT * (1 + float(np.max(np.abs(want_v)))):
                         viol("returned_state_is_last_time_point", variant, comp,
                              f"after segment {j} ({k} steps, ckpt {_ckpt(k, variant)}): returned v differs from recording at step {lo} by "
                              f"{float(np.max(np.abs(got_v - want_v)))}")
@@ -202,10 +208,10 @@ def run_config(model_name, scheme, backend, n, variants, comps=None):
                 viol("composition", variant, comp, f"shape {cat.shape} vs {one.shape}")
                 continue
             err = float(np.max(np.abs(cat - one) / (1 + np.abs(one))))
-            if not np.isfinite(err) or err > TOL:
+            if not np.isfinite(err) or err > (TOL if variant == "none" else TOL_CKPT):
                 viol("composition", variant, comp, f"concatenated segments differ from one-shot by {err}")
             d, key = _state_diff({k: np.asarray(v) for k, v in st.items()}, man)
-            if d > TOL:
+            if d > (TOL if variant == "none" else TOL_CKPT):
                 viol("returned_state_is_last_time_point", variant, comp, f"final returned state vs manual stepper: {d} at {key}")
             out["digests"].append(digest([model_name, scheme, backend, variant, list(comp)]))
             if comp[0] == 1:
@@ -224,7 +230,7 @@ def run_config(model_name, scheme, backend, n, variants, comps=None):
 
 def work(item):
     comps = [tuple(c) for c in item["comps"]] if item.get("comps") else None
-    return run_config(item["model"], item["scheme"], item["backend"], item["n"], item["variants"], comps=comps)
+    return run_config(item["model"], item["scheme"], item["backend"], item["n"], item["variants"], comps=comps, dt=item.get("dt", 0.025))
 
 
 def explore(ctx):
@@ -245,6 +251,14 @@ def explore(ctx):
                 else:
                     for v in ["none", "exact", "over"]:
                         items.append({"model": model_name, "scheme": scheme, "backend": backend, "n": n, "variants": [v]})
+    # time step: the default (0.025, passed implicitly) and non-default ones (passed explicitly); checkpointed variants use a
+    # non-default step on the first model and the default elsewhere, un-checkpointed ones rotate over the backends
+    DTS = {"jaxley.stone": 0.025, "jaxley.thomas": 0.05, "jax.sparse": 0.0125}
+    for it in items:
+        if it["variants"] != ["none"]:
+            it["dt"] = 0.05 if it["model"] in ("comp_hh", "net_syn") else 0.025
+        else:
+            it["dt"] = DTS[it["backend"]]
     # split every configuration's compositions into two work items (load balance)
     allc = [list(c) for c in scope.compositions(n)]
     half = len(allc) // 2
@@ -258,5 +272,5 @@ def explore(ctx):
 
 
 def replay(w):
-    r = run_config(w["model"], w["scheme"], w["backend"], w["n"], [w["variant"]], comps=[tuple(w["composition"])])
+    r = run_config(w["model"], w["scheme"], w["backend"], w["n"], [w["variant"]], comps=[tuple(w["composition"])], dt=w.get("dt", 0.025))
     return r["violations"]
